@@ -76,12 +76,31 @@ func listOf(a *protocol.Args) []kv {
 	return out
 }
 
+// reusedArgs is a long-lived Args object (as the query and form args of a pooled request are): before
+// every use it has held other keys with non-empty values in every slot and was Reset.
+var reusedArgs protocol.Args
+
+// parseReused parses s into the recycled object and compares with what a new object gives.
+func parseReused(s []byte, fresh *protocol.Args) string {
+	reusedArgs.ParseBytes([]byte("p1=POISON-ONE&p2=POISON-TWO&p3=POISON-THREE&p4=POISON-FOUR&p5=POISON-FIVE&p6=POISON-SIX"))
+	reusedArgs.Reset()
+	reusedArgs.ParseBytes(append([]byte(nil), s...))
+	g, f := listOf(&reusedArgs), listOf(fresh)
+	if fmt.Sprint(g) != fmt.Sprint(f) {
+		return fmt.Sprintf("query %q parses to %+v in a new Args but to %+v in a recycled one (Reset after holding other values)", s, f, g)
+	}
+	return ""
+}
+
 // checkArgsRoundTrip: ParseBytes(AppendBytes(list)) == list minus entries with empty key and empty value.
 func checkArgsRoundTrip(l []kv) string {
 	a := argsFromList(l)
 	enc := append([]byte(nil), a.QueryString()...)
 	var b protocol.Args
 	b.ParseBytes(enc)
+	if msg := parseReused(enc, &b); msg != "" {
+		return msg
+	}
 	got := listOf(&b)
 	var want []kv
 	for _, e := range l {
@@ -119,6 +138,9 @@ func checkArgsDifferential(s string) (string, bool) {
 	}
 	var a protocol.Args
 	a.ParseBytes([]byte(s))
+	if msg := parseReused([]byte(s), &a); msg != "" {
+		return msg, true
+	}
 	got := map[string][]string{}
 	a.VisitAll(func(k, v []byte) {
 		got[string(k)] = append(got[string(k)], string(v))
@@ -500,6 +522,7 @@ type cookieCase struct {
 	Expire                   int64 // unix seconds, 0 = none
 	HTTPOnly, Secure, Part   bool
 	SameSite                 int
+	SameSiteFirst            bool // call SetSameSite before SetSecure
 }
 
 const skipCookie = "SKIP: path decodes to a ';'"
@@ -521,8 +544,14 @@ func checkCookie(cc *cookieCase) string {
 		c.SetPath(cc.Path)
 	}
 	c.SetHTTPOnly(cc.HTTPOnly)
-	c.SetSecure(cc.Secure)
-	c.SetSameSite(protocol.CookieSameSite(cc.SameSite))
+	if cc.SameSiteFirst {
+		// SetSameSite(None) switches Secure on; an application may switch it off again afterwards
+		c.SetSameSite(protocol.CookieSameSite(cc.SameSite))
+		c.SetSecure(cc.Secure)
+	} else {
+		c.SetSecure(cc.Secure)
+		c.SetSameSite(protocol.CookieSameSite(cc.SameSite))
+	}
 	c.SetPartitioned(cc.Part)
 	if bytes.IndexByte(c.Path(), ';') >= 0 {
 		// SetPath percent-decodes: "/%3b" is held as "/;". A ';' cannot be carried by a Set-Cookie
@@ -564,6 +593,7 @@ func checkCookie(cc *cookieCase) string {
 var cookieKeys = []string{"k", "session_id", "a-b.c", "A1", "__Host-x", "!#$%&'*+-.^_`|~"}
 var cookieValues = []string{"", "v", "abc123", "a=b", "x%20y", "a/b?c", "!#$&'()*+-./:<=>?@[]^_`{|}~", "1,2"}
 var cookieDomains = []string{"", "example.com", ".example.com", "a.b.c"}
+
 // "/%2541", "/a%2520b": SetPath decodes once, the cookie then holds (and writes) a literal %XX, which parsing must not decode again
 var cookiePaths = []string{"", "/", "/a/b", "/a b", "/%41", "/%2541", "/a%2520b/%252e%252e"}
 
@@ -585,7 +615,7 @@ func TestC17CookieExhaustive(t *testing.T) {
 									if global%int64(nshards) != int64(shard) {
 										continue
 									}
-									cc := &cookieCase{Key: k, Value: v, Domain: d, Path: p, MaxAge: ma, Expire: ex, HTTPOnly: flags&1 != 0, Secure: flags&2 != 0, Part: flags&4 != 0, SameSite: ss}
+									cc := &cookieCase{Key: k, Value: v, Domain: d, Path: p, MaxAge: ma, Expire: ex, HTTPOnly: flags&1 != 0, Secure: flags&2 != 0, Part: flags&4 != 0, SameSite: ss, SameSiteFirst: global%2 == 0}
 									evals++
 									if flags != 0 || ss != 0 || ma != 0 || ex != 0 {
 										nontriv++
@@ -647,6 +677,7 @@ func TestC17CookieRandom(t *testing.T) {
 		cc.Secure = rapid.Bool().Draw(t, "secure")
 		cc.Part = rapid.Bool().Draw(t, "partitioned")
 		cc.SameSite = rapid.IntRange(0, 4).Draw(t, "sameSite")
+		cc.SameSiteFirst = rapid.Bool().Draw(t, "sameSiteFirst")
 		rec.Case(cc.MaxAge != 0 || cc.Expire != 0 || cc.SameSite != 0, ev.HashString(fmt.Sprintf("%+v", *cc)), "cookie")
 		msg := checkCookie(cc)
 		if msg == skipCookie {
